@@ -7,6 +7,7 @@
 extern "C" {
 int ah_dump(const uint8_t *data, size_t n, char **out);
 void ah_begin(const char *t, size_t len);
+void ah_refill(const char *t, size_t len);
 int ah_next(void);
 int ah_next2(void);
 long ah_resume_offset(void);
@@ -258,7 +259,21 @@ void h_run(Ctx &c)
 		}
 		if (c.want_log)
 			c.note("grammar text (%s address prefix): \"%s\"%s", prefix ? "with" : "without", printable(text.substr(0, 600)).c_str(), text.size() > 600 ? "..." : "");
-		ah_begin(text.data(), text.size());
+		// now and then the text arrives in storage that has just been parsed with other contents (a refilled line
+		// buffer): a colon-free text of at least the same length is parsed there first
+		if (c.feat(2) && !t.enumerating && t.weighted({ 4, 1 }) == 1) {
+			std::string warm;
+			while (warm.size() < text.size() + 3)
+				warm += "a5 ";
+			ah_begin(warm.data(), warm.size());
+			std::vector<int> w;
+			if (!drain(c, warm, w, false))
+				break;
+			CHECK(c, w.size() == warm.size() / 3, "a text of %zu times \"a5 \" parsed as %zu bytes", warm.size() / 3, w.size());
+			ah_refill(text.data(), text.size());
+			c.cls("text-in-storage-parsed-before-with-other-contents");
+		} else
+			ah_begin(text.data(), text.size());
 		std::vector<int> got;
 		if (!drain(c, text, got, false))
 			break;
